@@ -101,6 +101,28 @@ def run(ck, m):
     insp = [n for n in g.nodes if n.kind in ("stmt", "iter", "test") and n.ast is not None and "self._ti_image_cviews" in norm(n.ast if n.kind != "iter" else n.ast.iter) and not any(
         norm(t) == "self._ti_image_cviews" for t, _ in (stores_in(n.ast) if n.kind == "stmt" else []))]
     upd = [n for n in g.nodes if n.kind == "stmt" and any(norm(t) == "self._ti_image_cviews" for t, _ in stores_in(n.ast))]
+    # a return that is decided by the KIND of the screen canvas (no CompositeCanvas = no shards, hence no image views on the new screen) must come after
+    # the recorded views were inspected: the images of the previous screen are still on the terminal and only this method can delete them
+    def _mentions_views(x):
+        a_ = x.ast if x.kind != "iter" else getattr(x.ast, "iter", None)
+        if a_ is None:
+            return False
+        if x.kind == "test":
+            a_ = getattr(a_, "test", a_)
+        elif isinstance(a_, (ast.If, ast.While, ast.For, ast.Try, ast.With, ast.FunctionDef)):
+            return False
+        return "self._ti_image_cviews" in norm(a_)
+    for r_ in body_walk(tc):
+        if not isinstance(r_, ast.Return):
+            continue
+        kind_dep = [t_ for t_, _b in guards(r_) if "CompositeCanvas" in norm(trace(tc, t_))]
+        if not kind_dep:
+            continue
+        rn_ = g.nodes_of(r_)
+        p_ = g.search([g.entry], lambda x: x in rn_, avoid=_mentions_views, edge_ok=lambda s, lab, d: not lab.startswith(("e:", "p:")))
+        ck.ob("R2", r_, p_ is None, f"the method returns because of the kind of the new screen canvas (`{short(kind_dep[0], 60)}`) without having looked at the recorded image views "
+              f"({fmt_path(p_) if p_ else ''}): when the previous screen showed images and the new top-level canvas is not a CompositeCanvas, they are never deleted (a ghost image stays on the terminal)",
+              stmt="_ti_clear_images: a return decided by the canvas kind comes after the recorded views were inspected")
     ck.expect(len(insp) >= 2 and len(upd) >= 2, "_ti_clear_images: reads/updates of _ti_image_cviews not recognised")
     for n in insp:
         p = g.search([n], lambda x: x is g.exit_return, avoid=lambda x: x in upd, edge_ok=lambda s, lab, d: not lab.startswith(("e:", "p:")))
